@@ -277,6 +277,7 @@ type EntryResult struct {
 	Assume       int
 	Infeasible   int
 	Inconclusive map[string]int
+	IncExample   map[string]string
 	StepsPaths   int
 	PanicPaths   int
 	Violations   []interp.Violation
@@ -293,7 +294,7 @@ type EntryResult struct {
 }
 
 func explore(ws []*workerProc, e *Entry, tc TierCfg, classify func(interp.Violation) string) (*EntryResult, error) {
-	res := &EntryResult{Entry: e, Inconclusive: map[string]int{}, Reach: map[string]int{}}
+	res := &EntryResult{Entry: e, Inconclusive: map[string]int{}, IncExample: map[string]string{}, Reach: map[string]int{}}
 	t0 := time.Now()
 	for _, w := range ws {
 		r, err := w.call(interp.Request{Op: "entry", Pkg: e.Pkg, Func: e.Func, Stubs: e.Stubs, Params: tc.Params, MaxSteps: tc.MaxSteps})
@@ -385,6 +386,9 @@ func explore(ws []*workerProc, e *Entry, tc TierCfg, classify func(interp.Violat
 					res.Infeasible++
 				case "inconclusive":
 					res.Inconclusive[pr.Why]++
+					if _, seen := res.IncExample[pr.Why]; !seen {
+						res.IncExample[pr.Why] = "at " + pr.Where + " model=" + modelString(pr.Model)
+					}
 				case "steps":
 					res.StepsPaths++
 				case "panic":
@@ -783,7 +787,7 @@ func runMain(args []string) int {
 		fmt.Printf("RESULT property=%s entry=%s paths=%d done=%d assume-pruned=%d inconclusive=%d steps-exceeded=%d panics=%d obligations=%d violations(distinct-sampled)=%d wall=%.1fs\n",
 			*prop, e.Name, r.Paths, r.Done, r.Assume, inc, r.StepsPaths, r.PanicPaths, r.Obligations, len(r.Violations), r.WallS)
 		for why, n := range r.Inconclusive {
-			fmt.Printf("  INCONCLUSIVE x%d: %s\n", n, why)
+			fmt.Printf("  INCONCLUSIVE x%d: %s\n    first: %s\n", n, why, r.IncExample[why])
 		}
 		if r.Truncated != "" {
 			fmt.Printf("  TRUNCATED: %s\n", r.Truncated)
